@@ -6,3 +6,9 @@ mod self_intersection;
 pub use self::curve_line::*;
 pub use self::curve_curve_clip::*;
 pub use self::self_intersection::*;
+
+/// (verification hook, only with `--cfg flo_curves_verif`) re-exports the private fat line type
+#[cfg(flo_curves_verif)]
+pub mod verif_hooks {
+    pub use super::fat_line::FatLine;
+}
